@@ -704,10 +704,10 @@ pub fn decoy(cfg: &ConfigSpec) -> BoxedStrategy<Decoy>
     let simple_stmt = (call.clone(), msg.clone()).prop_map(|(c, m)| format!("{}!(\"{}\")", c, m));
     let kv_stmt = (call.clone(), msg.clone()).prop_map(|(c, m)| format!("{}!(target: \"t\", a = 1; \"{}\", 5)", c, m));
     let any_stmt = prop_oneof![3 => simple_stmt.clone(), 1 => kv_stmt];
-    let line_prefix = select(&["// ", "//", "/// ", "//! ", "// see: ", "    // ", "// old\r", "// a\rb "][..]);
+    let line_prefix = select(&["// ", "//", "/// ", "//! ", "// see: ", "    // ", "// old\r", "// a\rb ", "let q = '\"'; // \"", "let q = b'\"';\n    // it said \""][..]);
     prop_oneof![
         3 => (line_prefix, any_stmt.clone()).prop_map(|(p, s)| Decoy::LineComment(format!("{}{}", p, s))),
-        2 => (select(&["/* ", "/** ", "/*", "/*! "][..]), any_stmt.clone()).prop_map(|(p, s)| Decoy::BlockComment(format!("{}{} */", p, s))),
+        2 => (select(&["/* ", "/** ", "/*", "/*! ", "let q = '\"'; /* \""][..]), any_stmt.clone()).prop_map(|(p, s)| Decoy::BlockComment(format!("{}{} */", p, s))),
         2 => any_stmt.clone().prop_map(|s| Decoy::BlockCommentMulti(format!("/*\n * before\n   {};\n * after\n */", s))),
         3 => (select(uncfg), msg.clone()).prop_map(|(n, m)| Decoy::Unconfigured(format!("{}!(\"{}\");", n, m))),
         2 => (call.clone(), select(&["", "x", "target: \"t\"", "FMT, 1", "x.y", "&s", "concat!(a)"][..]))
